@@ -65,6 +65,10 @@ CHECKS['C08'] = dict(level='other',
    text='Deductive: _BaseLayout._split, the only producer of the name parts that reach path construction in the maildir layouts, is proved to return only parts that are safe path components (not empty, not . or .., without NUL or path separator), the empty list only for INBOX, or to raise FileNotFoundError; a structural obligation shows every path construction in layout.py consumes parts from _split. Bounded (decides the statement): on the real MaildirBackend (both layouts, two users) every filesystem path touched while hostile names are used in 15 commands is audited (sys.audit) to lie strictly inside the user\'s directory, the tree outside stays byte-identical and another user\'s marker message never appears; the same names on the dict backend leave what a second user observes unchanged.',
    note='Strings are opaque in the contract (part predicates uninterpreted); the path lemma (safe components normalise inside the root) is assumed and cross-checked by the bounded run; sys.audit does not see accesses made by C extensions that bypass it; the redis backend is not run; the bounded part is exhaustive only on its stated name alphabet.',
    ref='6 C08')
+CHECKS['C07'] = dict(level='other',
+   text='Deductive: String.build is proved to choose the quoted form only for values without CR, LF or NUL, never for binary data, and to keep the value; LiteralString.__init__/write are proved to announce in {n} exactly the number of bytes written after the prefix, to write the string itself, to end the prefix with }CRLF and to mark binary literals with ~. Bounded (decides the statement on its scope): 58 hostile byte strings in every client-controlled position (mailbox names, keywords, ID parameters, section header names, junk commands, 19 header fields, 15 structured MIME/address forms) and 33 message shapes are echoed through every response form on the real server, and the complete byte stream of every connection is parsed by an independent strict RFC 3501 response grammar.',
+   note='QuotedString.__bytes__ and AString.__bytes__ (regex based) and the ENVELOPE/BODYSTRUCTURE builders are covered by the bounded run only; 8-bit bytes inside quoted strings are counted, not rejected (the statement does not list them); two known findings (FETCH BINARY of an unknown Content-Transfer-Encoding / undecodable base64 cuts the response) are recorded, not repaired.',
+   ref='6 C07')
 NOT_YET = {}
 def main():
     props = [json.loads(l) for l in open(os.path.join(HERE, 'properties.jsonl'))]
